@@ -30,6 +30,7 @@ func VerifC16_ProvisionRestart() {
 	}
 	first := crlrepository.VerifNewCRL("L", "CN=I1", s1)
 	crlrepository.VerifSetServer(loc, true, first)
+	rawLikeParsed(cfg)
 	c := &CRLRevocationChecker{}
 	err := c.Provision(cfg, zap.NewNop())
 	verifrt.Assert(err == nil, "run 1: an acceptable configured CRL provisions")
